@@ -630,6 +630,7 @@ class C10(engine.Property):
         "container-shared-between-attributes",
         "warm-memo-then-mutation-then-same-read-on-the-copy",
         "hash-container-of-graph-objects-as-attribute",
+        "equal-but-not-identical-constant-tuples",
     ]
 
     # -- configuration --------------------------------------------------------------------
@@ -780,6 +781,11 @@ class C10(engine.Property):
         objs = view.vertices() + view.edges() + view.multis()
         if not objs:
             return None
+        queued = getattr(st, "attr_queue", None)
+        if queued:
+            op = queued.pop(0)
+            if op["obj"] in view.snap:
+                return op
         obj = rng.choice(objs)
         name = rng.choice(ATTR_NAMES)
         r = rng.random()
@@ -797,8 +803,12 @@ class C10(engine.Property):
             specs = st.__dict__.setdefault("shared_specs", {})
             key = f"s{st.shared_epoch}-{rng.randrange(2)}"
             if key not in specs:
-                members = [{"ref": x} for x in rng.sample(refs, min(len(refs), rng.randint(1, 4)))]
                 shape = rng.choice(["tuple", "tuple", "tuple", "list", "dict"])
+                # (a list or dict may well be EMPTY while it is shared: a journal
+                # nobody has written to yet)
+                lo = 1 if shape == "tuple" else 0
+                hi = 0 if (shape != "tuple" and rng.random() < 0.35) else 4
+                members = [{"ref": x} for x in rng.sample(refs, min(len(refs), rng.randint(lo, max(lo, hi))))]
                 spec = {"shared": key}
                 if shape == "tuple":
                     spec["val"] = {"tuple": members + ([rng.randrange(5)] if rng.random() < 0.3 else [])}
@@ -813,6 +823,11 @@ class C10(engine.Property):
             inner = [m["ref"] for m in _spec_refs(val)]
             if inner and rng.random() < 0.6:
                 obj = rng.choice(inner)
+            if rng.random() < 0.5:
+                # a second holder of the very same container, next
+                st.attr_queue = getattr(st, "attr_queue", []) + [
+                    {"op": "set_attr", "obj": rng.choice(objs), "name": rng.choice(ATTR_NAMES), "val": val, "via": rng.choice(["item", "attr"])}
+                ]
             st.stats["probe:container-shared-between-attributes"] += 1
         elif r < 0.20 and self._plain_hashed(view, refs):
             # hash containers of graph objects (the "team" pattern: members
@@ -835,7 +850,18 @@ class C10(engine.Property):
             # size at which pickle writes bytes out of band (64 KiB)
             val = {"blob": rng.choice([0, 3, 3, 40, 65536, 70001]), "key": rng.randrange(2)}
             st.stats["probe:bytes-attribute"] += 1
-        elif r < 0.25:
+        elif r < 0.27:
+            # tuples of constants that compare equal to one another but are not
+            # the same values (bool / int / float, signed zero)
+            family = rng.choice([[[True, False], [1, 0], [1.0, 0.0]], [[2.0, 4], [2, 4]], [[-0.0, 1.0], [0.0, 1.0], [0, 1.0]]])
+            first, second = rng.sample(family, 2)
+            val = {"tuple": first}
+            # ... and its equal twin on another object, next
+            st.attr_queue = getattr(st, "attr_queue", []) + [
+                {"op": "set_attr", "obj": rng.choice(objs), "name": rng.choice(ATTR_NAMES), "val": {"tuple": second}, "via": "attr"}
+            ]
+            st.stats["probe:equal-but-not-identical-constant-tuples"] += 1
+        elif r < 0.33:
             val = rng.choice([0, 1, -7, 2.5, "text", "", None, True])
         elif r < 0.5:
             val = {"ref": rng.choice(refs)}
